@@ -29,7 +29,7 @@ func Generate(r *rand.Rand, profile string) *Scenario {
 	if profile == "minrt" || profile == "elastic" {
 		return generateVictims(r, profile)
 	}
-	if profile == "bindfail" || profile == "overhead" || profile == "nested" {
+	if profile == "bindfail" || profile == "overhead" || profile == "nested" || profile == "sharers" {
 		return generateTight(r, profile)
 	}
 	pick := func(vs ...int) int { return vs[r.Intn(len(vs))] }
@@ -772,6 +772,39 @@ func generateTight(r *rand.Rand, profile string) *Scenario {
 			ovh := pick(0, 500, 1000, 1500, 2000)
 			sc.Jobs = append(sc.Jobs, Job{Name: fmt.Sprintf("j%d", j+1), Queue: 2 + r.Intn(2), Prio: 50, Preempt: 1, Min: 1, Age: 600 + 60*j, LastStart: -1})
 			sc.Pods = append(sc.Pods, Pod{Name: fmt.Sprintf("j%d-p1", j+1), Job: j + 1, Cpu: c, Mem: 500, InitCpu: initC, OvhCpu: ovh, Phase: "P"})
+		}
+	case "sharers":
+		// GPU groups holding running and terminating sharers in various mixes, pending single- and
+		// multi-fraction pods that fit some groups only on memory a terminating sharer still holds
+		g := pick(2, 3)
+		sc.Nodes = []Node{{Name: "n1", Cpu: 32000, Mem: 64000, Pods: 110, Gpus: g, GpuMem: 40000, Ready: 1}}
+		sc.Cfg.Env = []string{"stall", "closed"}[r.Intn(2)]
+		sc.Cfg.Placement = []string{"binpack", "binpack", "spread"}[r.Intn(3)]
+		k := 0
+		for gi := 0; gi < g; gi++ {
+			mode := pick(0, 1, 2, 3) // 0 empty, 1 running 0.5, 2 running 0.5 + terminating 0.5, 3 terminating 0.5 only
+			grp := fmt.Sprintf("g%d", gi+1)
+			add := func(term int) {
+				k++
+				sc.Jobs = append(sc.Jobs, Job{Name: fmt.Sprintf("j%d", k), Queue: 2 + r.Intn(2), Prio: 50, Preempt: 1, Min: 1, Age: 7200 + k, LastStart: 36000})
+				sc.Pods = append(sc.Pods, Pod{Name: fmt.Sprintf("j%d-p1", k), Job: k, Cpu: 500, Mem: 500, Frac: 50, Devs: 1, Phase: "R", Node: 1, Term: term, Groups: []string{grp}})
+			}
+			switch mode {
+			case 1:
+				add(0)
+			case 2:
+				add(0)
+				add(1)
+			case 3:
+				add(1)
+			}
+		}
+		np := pick(1, 2, 3)
+		for i := 0; i < np; i++ {
+			k++
+			devs := pick(1, 2, 2)
+			sc.Jobs = append(sc.Jobs, Job{Name: fmt.Sprintf("j%d", k), Queue: 2 + r.Intn(2), Prio: 50, Preempt: 1, Min: 1, Age: 600 + i, LastStart: -1})
+			sc.Pods = append(sc.Pods, Pod{Name: fmt.Sprintf("j%d-p1", k), Job: k, Cpu: 500, Mem: 500, Frac: pick(50, 50, 30), Devs: devs, Phase: "P"})
 		}
 	case "nested":
 		sc.Nodes = []Node{{Name: "n1", Cpu: 16000, Mem: 64000, Pods: 110, Gpus: 2, GpuMem: 40000, Ready: 1}}
